@@ -18,7 +18,7 @@ c_x == 120 c_y == 121 c_z == 122
 
 Body(c, ids) == [c |-> c, ids |-> ids]
 Blank == [name |-> <<>>, kind |-> "unit", long |-> <<>>, islong |-> FALSE, body |-> Body(1, <<>>), props |-> <<>>,
-          doc |-> "", cat |-> <<>>, disp |-> ""]
+          doc |-> "", cat |-> <<>>, disp |-> "", sym |-> <<>>]
 BaseU(n, long) == [Blank EXCEPT !.name = n, !.kind = "base", !.long = long]
 UnitD(n, c, ids) == [Blank EXCEPT !.name = n, !.kind = "unit", !.body = Body(c, ids)]
 PrefD(n, islong, c, ids) == [Blank EXCEPT !.name = n, !.kind = "prefix", !.islong = islong, !.body = Body(c, ids)]
@@ -26,6 +26,10 @@ QuantD(n, ids) == [Blank EXCEPT !.name = n, !.kind = "quantity", !.body = Body(1
 CatD(n, disp) == [Blank EXCEPT !.name = n, !.kind = "category", !.disp = disp]
 Prop(n, on, oc, oids, inn, ic, iids) == [name |-> n, oname |-> on, out |-> Body(oc, oids), iname |-> inn, inp |-> Body(ic, iids)]
 SubstD(n, props) == [Blank EXCEPT !.name = n, !.kind = "subst", !.props = props]
+SubstS(n, sym, props) == [SubstD(n, props) EXCEPT !.sym = sym]     \* `!symbol n sym` next to the substance
+\* a `!symbol n sym` line on its own: not a definition - the parser attaches the symbol to the substance named n
+\* of the SAME file (gnu_units.rs:316, 548), see ParseFile
+SymDir(n, sym) == [Blank EXCEPT !.name = n, !.kind = "symdir", !.sym = sym]
 Doc(d, t) == [d EXCEPT !.doc = t]
 Cat(d, c) == [d EXCEPT !.cat = c]
 
@@ -39,6 +43,18 @@ n_ms == <<c_m, c_s>>
 n_kin == <<c_k, c_i, c_n>>
 n_meter == <<c_m, c_e, c_t, c_e, c_r>>
 n_c1 == <<c_c, 49>>
+c_g == 103 c_h == 104
+n_kg == <<c_k, c_g>>
+n_mol == <<c_m, c_o, c_l>>
+n_kilogram == <<c_k, c_i, c_l, c_o, c_g, c_r, c_a, c_m>>
+n_hy == <<c_h, c_y>>
+n_ox == <<c_o, c_x>>
+n_mass == <<c_m, c_a, c_s, c_s>>
+n_amount == <<c_a, c_m, c_o, c_u, c_n, c_t>>
+S_H == <<72>>
+S_O == <<79>>
+\* molar_mass  mass c kg / amount 1000 mol
+MolarMass(c) == Prop(N_molar_mass, n_mass, c, <<n_kg>>, n_amount, 1000, <<n_mol>>)
 
 \* The universe: every item is the parsed form of one self-contained piece of definitions text (a definition
 \* inside a category parses to the category entry followed by the definition).
@@ -73,7 +89,19 @@ Pool == <<
   (* 24 *) <<PrefD(<<c_d, c_a>>, FALSE, 10, <<>>)>>,
   (* 25 *) <<UnitD(<<c_a, c_m>>, 5, <<n_s>>)>>,
   (* 26 *) <<UnitD(<<c_r>>, 3, <<<<c_d, c_a, c_m>>>>)>>,
-  (* 27 *) <<UnitD(<<c_u>>, 2, <<<<c_r>>, <<c_d, c_a, c_m>>>>)>>
+  (* 27 *) <<UnitD(<<c_u>>, 2, <<<<c_r>>, <<c_d, c_a, c_m>>>>)>>,
+  \* 28-36: references that are neither names nor prefix + name: the long name of a base unit, the symbol of a
+  \* substance, a chemical formula - from definitions whose own names sort before (aq, ab, ac) and after (zz) the
+  \* definitions they lead to; and a `!symbol` line apart from its substance
+  (* 28 *) <<BaseU(n_kg, n_kilogram), BaseU(n_mol, <<>>)>>,
+  (* 29 *) <<SubstS(n_hy, S_H, <<MolarMass(1)>>)>>,
+  (* 30 *) <<SubstS(n_ox, S_O, <<MolarMass(16)>>)>>,
+  (* 31 *) <<UnitD(<<c_a, c_q>>, 1, <<<<72, 50, 79>>>>)>>,          \* aq H2O
+  (* 32 *) <<UnitD(<<c_a, c_b>>, 1, <<S_H>>)>>,                      \* ab H
+  (* 33 *) <<UnitD(<<c_z, c_z>>, 1, <<<<79, 50>>>>)>>,               \* zz O2
+  (* 34 *) <<UnitD(<<c_a, c_c>>, 3, <<n_kilogram>>)>>,               \* ac 3 kilogram
+  (* 35 *) <<SymDir(n_ox, S_O)>>,                                    \* !symbol ox O
+  (* 36 *) <<SubstD(n_ox, <<MolarMass(16)>>)>>                       \* ox without its symbol
 >>
 
 RECURSIVE SubsetsUpTo(_, _)
@@ -96,10 +124,19 @@ Splits(q) ==
         ELSE {})
 
 DefsOfItems(I) == UNION {Range(Pool[i]) : i \in I}
-ItemSets == {I \in SubsetsUpTo(PoolSel, MaxDefs) : I # {} /\ UniquelyNamed(DefsOfItems(I))}
-\* a file of items -> the list its text parses to
-RECURSIVE ParseFile(_)
-ParseFile(f) == IF f = <<>> THEN <<>> ELSE Pool[Head(f)] \o ParseFile(Tail(f))
+RealDefs(I) == {d \in DefsOfItems(I) : d.kind # "symdir"}
+\* every symbol is given once: by one substance, or by one `!symbol` line
+SymbolOnce(I) == \A d, e \in {x \in DefsOfItems(I) : x.sym # <<>>} : d # e => d.sym # e.sym
+ItemSets == {I \in SubsetsUpTo(PoolSel, MaxDefs) : I # {} /\ UniquelyNamed(RealDefs(I)) /\ SymbolOnce(I)}
+\* a file of items -> the list its text parses to: the `!symbol` lines of a file name substances of that file
+RECURSIVE RawFile(_)
+RawFile(f) == IF f = <<>> THEN <<>> ELSE Pool[Head(f)] \o RawFile(Tail(f))
+ParseFile(f) ==
+  LET raw == RawFile(f)
+      dirs == {raw[i] : i \in {j \in DOMAIN raw : raw[j].kind = "symdir"}}
+      SymOf(d) == IF d.kind = "subst" /\ \E x \in dirs : x.name = d.name
+                  THEN (CHOOSE x \in dirs : x.name = d.name).sym ELSE d.sym
+  IN SelectSeq([i \in DOMAIN raw |-> [raw[i] EXCEPT !.sym = SymOf(raw[i])]], LAMBDA d : d.kind # "symdir")
 MCInitCase(l, f) ==
   \E I \in ItemSets : \E p \in PermSeqs(I) : \E lbl \in Splits(p) :
      /\ l = lbl
@@ -127,6 +164,7 @@ DbJson ==
    prefixes |-> [i \in DOMAIN db.prefixes |-> [name |-> db.prefixes[i].name, v |-> NumJson(db.prefixes[i].v)]],
    quants |-> {[name |-> db.quants[k], d |-> DimJson(k)] : k \in DOMAIN db.quants},
    subst |-> MapJson(db.subst, PropsJson),
+   symbols |-> MapJson(db.symbols, IdF),
    docs |-> MapJson(db.docs, IdF),
    cats |-> MapJson(db.cats, IdF),
    catnames |-> MapJson(db.catnames, IdF),
@@ -136,7 +174,15 @@ DbJson ==
    ambiguous |-> Ambiguous]
 EmitDb == Done => PrintT(<<"DB", ToJson(DbJson)>>)
 
+\* the design before commits 3701c96 / 479bb55 (sanity configurations: ForwardRefsResolve must fail there)
+NoLink == FALSE
+
 \* FixedPoint is asserted where every identifier has one reading; elsewhere a failure is only counted
 FixedPointScoped == Ambiguous \/ FixedPoint
 CountAmbiguous == (Done /\ Ambiguous /\ ~FixedPoint) => PrintT(<<"AMBIG", Cardinality(defset)>>)
+\* the same scope for ForwardRefsResolve: where a reference has two readings (`dam` = d- am or da- m) the resolver
+\* follows one of them and the registry may need the other (the property statement does not say which reading a
+\* name has); such sets are counted, not asserted
+ForwardRefsScoped == Ambiguous \/ ForwardRefsResolve
+CountAmbiguousFwd == (Done /\ Ambiguous /\ ~ForwardRefsResolve) => PrintT(<<"AMBIGFWD", Cardinality(defset)>>)
 =============================================================================
